@@ -18,8 +18,14 @@ the boundary tamper set (first/last blocks, tag, strided interior positions, the
 and a few deep ones, extensions, block reordering); the remaining base cases of a large length get
 the light set (one flip per region, truncation by 1/10/16/26, one extension, one wrong key, one wrong
 kind).  MAC-then-decrypt has no control flow that depends on position, key or content beyond those.
+
+Sequence part (both tiers): all sequences of 2 and 3 calls on ONE MediaCipher object over
+{encrypt, decrypt valid, decrypt wrong-kind blob, decrypt tampered blob} x 4 kinds x 2 keys x lengths
+{0, 15, 16, 17, 1000}, through the generic calls and through the per-kind wrappers; every step is compared
+with the reference, so a result that depends on what the object did before is a violation (C15:sequence:*).
 """
 import hashlib
+import itertools
 
 from vf import env
 env.bootstrap()
@@ -283,6 +289,175 @@ def check_case(item):
     return idx, vs, calls, tampered, outcome
 
 
+# ------------------------------------------------------------------------------------------------------
+# Operation sequences on ONE MediaCipher object: the result of a call must not depend on earlier calls.
+#
+# step = (op, kind, key index, plaintext length)
+#   op "enc"        encrypt the plaintext as <kind>                -> must equal the reference blob
+#      "dec"        decrypt the valid reference <kind> blob          -> must return the plaintext
+#      "wk:<src>"   decrypt the valid <src> blob (src != kind) as <kind>   -> must raise
+#      "tam"        decrypt the <kind> blob with its last tag byte flipped  -> must raise
+# Every sequence is run on a fresh object, once through the generic encrypt/decrypt(…, info) calls and
+# once through the per-kind wrapper methods (the way yowsup's media download/upload code uses the class).
+# A step whose result deviates from the reference is re-run alone on a fresh object: the same deviation there
+# is a stateless defect (reported by the stateless part above under its own signature), a different result
+# means the object's history changed the outcome -> C15:sequence:*.
+
+SEQ_KEYS = (0, 3)
+SEQ_LENGTHS = (0, 15, 16, 17, 1000)
+SEQ_LENGTHS_DEEP = (0, 16, 17)
+SEQ_PATTERN = "ramp"
+_seq_cache = {}
+
+
+def seq_alphabet(lengths):
+    steps = []
+    for n in lengths:
+        for ki in SEQ_KEYS:
+            for kind in rm.KINDS:
+                steps.append(("enc", kind, ki, n))
+                steps.append(("dec", kind, ki, n))
+                for src in rm.KINDS:
+                    if src != kind:
+                        steps.append(("wk:" + src, kind, ki, n))
+                steps.append(("tam", kind, ki, n))
+    return steps
+
+
+def _seq_material(kind, ki, n):
+    k = (kind, ki, n)
+    r = _seq_cache.get(k)
+    if r is None:
+        p = make_plain(SEQ_PATTERN, n)
+        blob = rm.encrypt(p, KEYS[ki], kind)
+        bad = blob[:-1] + bytes([blob[-1] ^ 0x01])
+        r = _seq_cache[k] = (p, blob, bad)
+    return r
+
+
+def seq_call(mc, mode, step):
+    """Run one step on `mc`; -> ("ret", bytes) | ("raise", text)."""
+    op, kind, ki, n = step
+    key = KEYS[ki]
+    p, blob, bad = _seq_material(kind, ki, n)
+    if op == "enc":
+        arg, fn = p, "encrypt"
+    elif op == "dec":
+        arg, fn = blob, "decrypt"
+    elif op == "tam":
+        arg, fn = bad, "decrypt"
+    else:
+        arg, fn = _seq_material(op[3:], ki, n)[1], "decrypt"
+    try:
+        if mode == "generic":
+            r = getattr(mc, fn)(arg, key, rm.INFO[kind])
+        else:
+            r = getattr(mc, fn + "_" + kind)(arg, key)
+    except Exception as e:
+        return ("raise", _exc(e))
+    return ("ret", bytes(r))
+
+
+def seq_expected(step):
+    op, kind, ki, n = step
+    p, blob, bad = _seq_material(kind, ki, n)
+    if op == "enc":
+        return ("ret", blob)
+    if op == "dec":
+        return ("ret", p)
+    return ("raise", None)
+
+
+def seq_conforms(got, exp):
+    return got[0] == exp[0] and (exp[0] == "raise" or got[1] == exp[1])
+
+
+_SEQ_SIG = {"enc": "encrypt-differs", "dec": "valid-blob", "tam": "tamper-accepted", "wk": "wrong-kind-accepted"}
+
+
+def run_sequence(mode, seq, vs, alone_cache):
+    """-> number of real-code calls.  Appends at most one violation (first deviating step)."""
+    mc = MediaCipher()
+    calls = 0
+    for i, step in enumerate(seq):
+        got = seq_call(mc, mode, step)
+        calls += 1
+        exp = seq_expected(step)
+        if seq_conforms(got, exp):
+            continue
+        alone = alone_cache.get((mode, step))
+        if alone is None:
+            alone = alone_cache[(mode, step)] = seq_call(MediaCipher(), mode, step)
+            calls += 1
+        if alone == got or (alone[0] == "raise" and got[0] == "raise"):
+            return calls        # same deviation without any history: stateless defect, not a sequence defect
+        op, kind, ki, n = step
+        base = _SEQ_SIG[op[:2] if op.startswith("wk") else op]
+        if op == "dec":
+            base += "-rejected" if got[0] == "raise" else "-wrong-plaintext"
+        elif op == "enc" and got[0] == "raise":
+            base = "encrypt-raises"
+        earlier = seq[:i]
+        if not earlier:
+            rel = "first-call"
+        elif any(e[2] == ki and e[1] != kind for e in earlier):
+            rel = "same-key-other-kind"
+        elif any(e[2] == ki for e in earlier):
+            rel = "same-key-same-kind"
+        else:
+            rel = "other-key"
+        what = "%s after earlier %s calls on one MediaCipher (%s API): step %d %s %s key#%d len %d %s" % (
+            base, rel, mode, i + 1, op, kind, ki, n,
+            "raised " + got[1] if got[0] == "raise" else "returned %d bytes" % len(got[1]))
+        if op == "enc" and got[0] == "ret":
+            others = [k for k in rm.KINDS if k != kind and got[1] == _seq_material(k, ki, n)[1]]
+            if others:
+                what += " (= the %s layout)" % others[0]
+        vs.append(("C15:sequence:%s:%s" % (base, rel), what,
+                   {"sequence": [list(st) for st in seq[:i + 1]], "mode": mode},
+                   {"got": got, "expected": exp[0] if exp[0] == "raise" else {"ret_len": len(exp[1]), "head": exp[1][:24]},
+                    "same_call_on_a_fresh_object": alone[0] if alone[0] == "raise" else {"ret_len": len(alone[1])}}))
+        return calls
+    return calls
+
+
+def check_sequences(item):
+    """item = (idx, mode, lengths, depth, first step index): all sequences of `depth` steps over
+    seq_alphabet(lengths) that start with the given first step (shorter sequences are their prefixes)."""
+    idx, mode, lengths, depth, first = item
+    alpha = seq_alphabet(lengths)
+    vs = []
+    calls = nseq = kindchange = 0
+    alone_cache = {}
+    a = alpha[first]
+    for rest in itertools.product(alpha, repeat=depth - 1):
+        seq = (a,) + rest
+        calls += run_sequence(mode, seq, vs, alone_cache)
+        nseq += 1
+        if any(seq[j][2] == seq[j + 1][2] and seq[j][1] != seq[j + 1][1] for j in range(depth - 1)):
+            kindchange += 1
+    # one violation per signature is enough from a chunk; keep the shortest sequence
+    best = {}
+    for v in vs:
+        if v[0] not in best or len(v[2]["sequence"]) < len(best[v[0]][2]["sequence"]):
+            best[v[0]] = v
+    return idx, list(best.values()), calls, nseq, kindchange, len(vs)
+
+
+def build_sequence_items(quick):
+    items = []
+    for mode in ("generic", "wrapper"):
+        for n in SEQ_LENGTHS:                                   # one length per sequence, 3 steps
+            for first in range(len(seq_alphabet((n,)))):
+                items.append((mode, (n,), 3, first))
+        for first in range(len(seq_alphabet(SEQ_LENGTHS))):     # length varies per step, 2 steps
+            items.append((mode, SEQ_LENGTHS, 2, first))
+    if not quick:
+        for first in range(len(seq_alphabet(SEQ_LENGTHS_DEEP))):  # length varies per step, 3 steps
+            items.append(("generic", SEQ_LENGTHS_DEEP, 3, first))
+    return [(i,) + it for i, it in enumerate(items)]
+
+
 def lengths_for(quick):
     small = list(range(0, FULL_TAMPER_MAX + 1))
     if quick:
@@ -362,16 +537,38 @@ def run(ctx):
         if n > 0 and outcome[1] not in ("-", "encrypt-raises") and t > 0:
             nontrivial.add(it[1:5])
         ctx.add_violations(vs)
+    sitems = build_sequence_items(ctx.quick)
+    sres = ctx.pmap(check_sequences, shuffled(sitems, ctx.seed, "c15seq"), chunksize=2)
+    sres.sort(key=lambda r: r[0])
+    seq_calls = nseq = seq_kindchange = seq_bad = 0
+    for (idx, vs, c, ns, kc, nbad) in sres:
+        seq_calls += c
+        nseq += ns
+        seq_kindchange += kc
+        seq_bad += nbad
+        ctx.add_violations(sorted(vs, key=lambda v: (len(v[2]["sequence"]), v[0])))
+    ctx.violation_count += max(0, seq_bad - sum(len(r[1]) for r in sres))
+    calls += seq_calls
     ctx.sample({"kind": "image", "key": 0, "pattern": "zeros", "length": 0, "tamper": "full"})
+    ctx.sample({"sequence": [["enc", "image", 0, 16], ["wk:image", "audio", 0, 16], ["dec", "image", 0, 16]],
+                "mode": "wrapper", "note": "one MediaCipher object, every step compared with the reference"})
     ctx.sample({"kind": items[-1][1], "key": items[-1][2], "pattern": items[-1][3], "length": items[-1][4],
                 "tamper": items[-1][5]})
     ctx.sample({"outcome_vectors(class, roundtrip, vs_reference, reference_opens, library_opens_reference, tamper_accepted)":
                 [list(k) + [v] for k, v in sorted(outcomes.items(), key=repr)]})
     ctx.coverage.update({
         "evaluations": calls + ka,
-        "distinct_nontrivial": len(nontrivial),
+        "distinct_nontrivial": len(nontrivial) + seq_kindchange,
         "rule": "distinct (kind, key, pattern, length) base cases with length > 0 for which the real encrypt returned "
-                "and round trip, byte comparison with the reference, both cross-decrypts and >= 1 tampered decrypt ran",
+                "and round trip, byte comparison with the reference, both cross-decrypts and >= 1 tampered decrypt ran; "
+                "plus distinct (mode, operation sequence) runs on one object in which two consecutive steps use the "
+                "same key with different kinds",
+        "sequences": nseq,
+        "sequence_calls": seq_calls,
+        "sequences_same_key_kind_change": seq_kindchange,
+        "sequence_alphabet": "ops {enc, dec valid, dec wrong-kind x3 sources, dec tampered} x 4 kinds x keys #0,#3; "
+                             "3 steps at each length of %s; 2 steps with the length varying per step%s; generic and wrapper calls"
+                             % (list(SEQ_LENGTHS), "" if ctx.quick else "; 3 steps with the length varying per step over %s (generic)" % list(SEQ_LENGTHS_DEEP)),
         "exhaustive": True,
         "base_cases": len(items),
         "base_cases_block_aligned": aligned,
@@ -396,6 +593,10 @@ def replay(ctx, case):
     if "known_answer" in case:
         known_answer(ctx)
         return []
+    if "sequence" in case:
+        vs = []
+        run_sequence(case["mode"], tuple(tuple(st) for st in case["sequence"]), vs, {})
+        return vs
     idx, vs, c, t, outcome = check_case((0, case["kind"], case["key"], case["pattern"], case["length"],
                                          case.get("tamper", "full" if case["length"] <= FULL_TAMPER_MAX else "boundary")))
     return vs
